@@ -115,6 +115,10 @@ def gen_desc(verif_seed: int, i: int, tier: str = "quick") -> dict:
         "max_failures": None,
         "history": gen_history(u, rng),
     }
+    r2 = random.Random(rs ^ 0xC19)
+    if len(cfg["history"]) >= 2 and r2.random() < 0.3:
+        # two stages on one loaded schema: part of the history happens after data was generated once already
+        cfg["split"] = r2.randrange(1, len(cfg["history"]))
     return {
         "property": PROPERTY,
         "profile": "c19",
@@ -140,7 +144,8 @@ RULE_TEXT = (
     "one case = a seeded registration history executed through the public decorators (map_ / before_generate_ / flatmap_ hooks on "
     "headers and query plus map_case, each adding a distinct marker, and filter_ hooks observed through their invocations; bare and named decorator form; no, one or two chained "
     "apply_to/skip_for filters by method (any letter case), path, name - single value or list - or regex; global and schema "
-    "dispatchers; interleaved unregister calls) followed by a simulated engine run; "
+    "dispatchers; interleaved unregister calls; in a third of the cases the history is split in two stages on one loaded schema, "
+    "the second part happening after data was generated once) followed by a simulated engine run; "
     "every fuzzing/stateful wire request of operation o must carry marker k iff hook k is still registered and its own filter "
     "selects o; non-trivial = >= 2 hooks registered with different filters and >= 5 observed requests; distinct = distinct "
     "(history digest, wire digest)"
@@ -149,7 +154,7 @@ ASSUMPTIONS = [
     "secondary property: no schedule/fault dimension; histories and configurations are sampled",
     "test-scope dispatchers (pytest) and auth-provider filters (covered by C14/R4) are not exercised here",
 ]
-EXPECTED_PROBES = ["hooks_registered", "unregistered", "filtered_hooks", "named_form", "schema_scope", "map_case_hooks"]
+EXPECTED_PROBES = ["hooks_registered", "unregistered", "filtered_hooks", "named_form", "schema_scope", "map_case_hooks", "two_stage_histories"]
 
 
 def fired_faults(desc: dict, res: dict) -> dict:
@@ -162,6 +167,7 @@ def fired_faults(desc: dict, res: dict) -> dict:
         "named_form": sum(1 for x in regs if x["form"] == "named"),
         "schema_scope": sum(1 for x in regs if x["scope"] == "schema"),
         "map_case_hooks": sum(1 for x in regs if x["hook"] == "map_case"),
+        **({"two_stage_histories": 1} if (res.get("stats") or {}).get("staged") else {}),
     }
 
 
@@ -189,9 +195,22 @@ class C19Profile(Profile):
         fns: dict[int, tuple] = {}
         calls: set = set()
         ctx.extra["c19_calls"] = calls
+        stage_box = [0]
+        split = cfg.get("split")
+
+        def run_stage(schema) -> None:
+            config = W.build_engine_config(cfg)
+            stream = from_schema(schema, config=config).execute()
+            for ev in W.EventTap(ctx, stream):
+                pass
+
         try:
             schema = W.load_schema(ctx)
-            for step in cfg["history"]:
+            for idx, step in enumerate(cfg["history"]):
+                if split is not None and idx == split:
+                    run_stage(schema)
+                    ctx.extra["c19_stage_mark"] = len(ctx.netlog)
+                    stage_box[0] = 1
                 k = step["k"]
                 if step["act"] == "unregister":
                     fn, scope = fns[k]
@@ -212,7 +231,7 @@ class C19Profile(Profile):
                             return query
                     elif hook_name in FILTER_HOOKS:
                         def fn(context, value):
-                            calls.add((k, context.operation.label))
+                            calls.add((stage_box[0], k, context.operation.label))
                             return True
                     elif hook_name == "before_generate_query":
                         def fn(context, strategy):
@@ -244,10 +263,7 @@ class C19Profile(Profile):
                     target = getattr(target, f["kind"])(**{f["attr"]: f["value"]})
                 target(fn)
                 fns[k] = (fn, step["scope"])
-            config = W.build_engine_config(cfg)
-            stream = from_schema(schema, config=config).execute()
-            for ev in W.EventTap(ctx, stream):
-                pass
+            run_stage(schema)
             ctx.exit_code = 0
         except Exception as exc:  # noqa: BLE001
             ctx.loop_exception = exc
@@ -269,19 +285,28 @@ class C19Profile(Profile):
         if ctx.loop_exception is not None:
             v("H0", f"run aborted: {type(ctx.loop_exception).__name__}: {str(ctx.loop_exception)[:300]}", what="aborted", exc=type(ctx.loop_exception).__name__)
             return vs
-        regs = {x["k"]: x for x in hist if x["act"] == "register"}
-        gone = {x["k"] for x in hist if x["act"] == "unregister"}
-        order = [x["k"] for x in hist if x["act"] == "register"]
+        full_hist = hist
+        split = ctx.config.get("split")
+        mark = ctx.extra.get("c19_stage_mark")
         observed = 0
         calls = ctx.extra.get("c19_calls") or set()
-        for r in ctx.netlog:
+        netlog = list(ctx.netlog)
+        if split is not None and mark is not None:
+            stages = [(0, netlog[:mark], full_hist[:split]), (1, netlog[mark:], full_hist)]
+        else:
+            stages = [(0, netlog, full_hist)]
+        for stage, records, hist in stages:
+          regs = {x["k"]: x for x in hist if x["act"] == "register"}
+          gone = {x["k"] for x in hist if x["act"] == "unregister"}
+          order = [x["k"] for x in hist if x["act"] == "register"]
+          for r in records:
             if r.phase not in ("fuzzing", "stateful") or r.op is None:
                 continue
             op = u.ops[r.op]
             observed += 1
             for k, reg in regs.items():
                 if reg["hook"] in FILTER_HOOKS:
-                    has = (k, r.op) in calls
+                    has = (stage, k, r.op) in calls
                 elif reg["hook"] in QUERY_HOOKS:
                     has = any(name == f"hk{k}" for name, _ in r.request.query)
                 else:
@@ -311,8 +336,9 @@ class C19Profile(Profile):
                     alone_on_dispatcher=len(same_disp) == 1,
                     own_filter=bool(reg["filters"]),
                     form=reg["form"],
+                    **({"after_first_generation": True} if stage == 1 else {}),
                 )
-        ctx.extra["c19_stats"] = {"observed": observed}
+        ctx.extra["c19_stats"] = {"observed": observed, "staged": int(split is not None and mark is not None)}
         return vs
 
     def stats(self, ctx) -> dict:
